@@ -85,6 +85,11 @@ func (z *ZodArray[T, R]) Parse(input any, ctx ...*core.ParseContext) (R, error) 
 			var zero R
 			return zero, nil
 		}
+		// A pointer schema hands back the pointer the engine returned (the caller's own
+		// when the caller passed one) instead of wrapping the slice in a new one.
+		if r, ok := any(v).(R); ok {
+			return r, nil
+		}
 		return convertToConstraint[T, R](*v), nil
 	case nil:
 		var zero R
